@@ -22,7 +22,21 @@ import "sync"
 // This call blocks until the reload manager accepts the signal. Callers that need
 // non-blocking behavior should invoke this in a goroutine.
 func (p *PIDZero) ReloadAll() {
-	p.reloadListener <- struct{}{}
+	select {
+	case p.reloadListener <- struct{}{}:
+	case <-p.ctx.Done():
+		// the reload manager is gone (or going): nobody will ever accept the request
+	}
+}
+
+// hasReloadable reports whether any runnable is Reloadable, i.e. whether Run() started a reload manager.
+func (p *PIDZero) hasReloadable() bool {
+	for _, r := range p.runnables {
+		if _, ok := r.(Reloadable); ok {
+			return true
+		}
+	}
+	return false
 }
 
 // startReloadManager starts a goroutine that listens for reload notifications
